@@ -13,7 +13,7 @@ def run(rep, tier, seed, replay):
     trace = os.path.join(c.OUT, f"async_trace-{os.getpid()}.ndjson")
     rc, o, dt = c.run([c.hbin("drive"), "async", cases, out, trace, str(seed)] + (["thorough"] if tier == "thorough" else []), timeout=3600)
     if rc != 0:
-        raise c.ToolError("drive async failed:\n" + o[-3000:])
+        c.driver_failed("drive async", rc, o)
     rows = c.read_ndjson(out)
     os.remove(out)
     summary = [r for r in rows if r["kind"] == "summary"][0]
